@@ -64,6 +64,47 @@ type realRun struct {
 	root *cryptobyte.Builder
 	vals *cbref.Values
 	ops  int
+	// probe: call Bytes() on the root between top-level operations (it must be a pure query).
+	probe bool
+	// sentinelHit: AddBytes wrote into the spare capacity of the caller's slice.
+	sentinelHit bool
+}
+
+// clobberPool holds the private buffers that AddBytes arguments are copied into; each is
+// overwritten as soon as AddBytes has returned (the caller owns its slice).
+var clobberPool = sync.Pool{New: func() any { b := make([]byte, 1<<16+1024); return &b }}
+
+const sentinelLen = 8
+
+// addBytesOwned passes a private copy of src (with sentinel bytes in its spare capacity)
+// to AddBytes and wipes the copy afterwards.
+func (r *realRun) addBytesOwned(b *cryptobyte.Builder, src []byte) {
+	bp := clobberPool.Get().(*[]byte)
+	if len(*bp) < len(src)+sentinelLen {
+		*bp = make([]byte, len(src)+sentinelLen+1024)
+	}
+	buf := *bp
+	p := buf[:len(src)]
+	copy(p, src)
+	tail := buf[len(src) : len(src)+sentinelLen]
+	for i := range tail {
+		tail[i] = 0xA5
+	}
+	defer func() {
+		// also on a panic out of AddBytes (misuse): wipe and hand the buffer back
+		for i := range p {
+			p[i] ^= 0xFF
+		}
+		for _, x := range tail {
+			if x != 0xA5 {
+				r.sentinelHit = true
+			}
+		}
+		if len(buf) <= 1<<17 {
+			clobberPool.Put(bp)
+		}
+	}()
+	b.AddBytes(p)
 }
 
 type marshaler struct {
@@ -98,7 +139,7 @@ func (r *realRun) exec(ops []*cbref.Op, b *cryptobyte.Builder, depth int) {
 		case cbref.U64:
 			b.AddUint64(v)
 		case cbref.Bytes:
-			b.AddBytes(r.vals.Bytes(op.ID, op.Arg))
+			r.addBytesOwned(b, r.vals.Bytes(op.ID, op.Arg))
 		case cbref.Unwrite:
 			b.Unwrite(op.Arg)
 		case cbref.SetError:
@@ -124,6 +165,9 @@ func (r *realRun) exec(ops []*cbref.Op, b *cryptobyte.Builder, depth int) {
 		case cbref.AddValue:
 			b.AddValue(marshaler{r, op, depth})
 		}
+		if r.probe && depth == 0 && b == r.root {
+			r.root.Bytes()
+		}
 	}
 }
 
@@ -134,6 +178,9 @@ type realRes struct {
 	pid  int
 	pval string
 	ops  int
+	// irregular: a side condition checked by the harness itself failed (AddBytes wrote into
+	// the caller's slice, Bytes is not idempotent, BytesOrPanic disagrees with Bytes).
+	irregular string
 }
 
 // protect is vf.Protect without the stack trace (a large share of the programs panics on purpose).
@@ -147,10 +194,13 @@ func protect(f func()) (panicked bool, val any) {
 	return
 }
 
-func runReal(prog []*cbref.Op, vals *cbref.Values, b *cryptobyte.Builder) (res realRes) {
-	r := &realRun{root: b, vals: vals}
+func runReal(prog []*cbref.Op, vals *cbref.Values, b *cryptobyte.Builder, probe bool) (res realRes) {
+	r := &realRun{root: b, vals: vals, probe: probe}
 	panicked, val := protect(func() { r.exec(prog, b, 0) })
 	res.ops = r.ops
+	if r.sentinelHit {
+		res.irregular = "AddBytes wrote into the spare capacity of the caller's slice"
+	}
 	if panicked {
 		res.pval = fmt.Sprint(val)
 		switch p := val.(type) {
@@ -182,6 +232,28 @@ func runReal(prog []*cbref.Op, vals *cbref.Values, b *cryptobyte.Builder) (res r
 	if p, v := protect(func() { out, err = b.Bytes() }); p {
 		res.kind, res.pval = "panic-runtime", "Bytes(): "+fmt.Sprint(v)
 		return
+	}
+	// Bytes is a query: asking again, and asking through BytesOrPanic, gives the same answer.
+	var out2, out3 []byte
+	var err2 error
+	if p, v := protect(func() { out2, err2 = b.Bytes() }); p {
+		res.kind, res.pval = "panic-runtime", "second Bytes(): "+fmt.Sprint(v)
+		return
+	}
+	p3, v3 := protect(func() { out3 = b.BytesOrPanic() })
+	switch {
+	case (err == nil) != (err2 == nil) || err != nil && err != err2:
+		res.irregular = "second Bytes() returns a different error state"
+	case err == nil && !(len(out) == len(out2) && (len(out) == 0 || sameBacking(out, out2))):
+		res.irregular = "second Bytes() returns a different slice"
+	case err == nil && p3:
+		res.irregular = "BytesOrPanic panics although Bytes returns no error: " + fmt.Sprint(v3)
+	case err == nil && !(len(out) == len(out3) && (len(out) == 0 || sameBacking(out, out3))):
+		res.irregular = "BytesOrPanic returns a different slice than Bytes"
+	case err != nil && !p3:
+		res.irregular = "BytesOrPanic does not panic although Bytes returns an error"
+	case err != nil && v3 != any(err):
+		res.irregular = "BytesOrPanic panics with a value other than the error from Bytes"
 	}
 	if err != nil {
 		res.kind, res.err = "error", err
@@ -359,6 +431,9 @@ func (k *checker) compareGrow(mode string, prog []*cbref.Op, m *cbref.Result, r 
 	bad := func(what string) bool {
 		k.report(fmt.Sprintf("%s builder: %s", mode, what), mode, prog, map[string]any{"model": m.Outcome.String(), "real": r.kind, "real_err": fmt.Sprint(r.err), "real_panic": r.pval})
 		return false
+	}
+	if r.irregular != "" {
+		return bad(r.irregular)
 	}
 	switch m.Outcome {
 	case cbref.OutBytes:
